@@ -119,7 +119,6 @@ vcast_usize_f64(nnodes)
 //@ rewrite
 )
         .collect();
-    for _i in 0.._max_iter {
 //@ with
  };
     let mut x: HashMap<T, f64> = viter_map_collect_map(all_v, init_fn);
@@ -131,7 +130,10 @@ vcast_usize_f64(nnodes)
         }
         lemma_pairs_to_node_map(*graph, pairs);
     }
-    for _i in 0.._max_iter
+//@ rewrite
+_max_iter {
+//@ with
+_max_iter
         invariant
             graph.wf_nodes(), graph.wf_estore(), graph.wf_rows(), graph.wf_index_members(), steps_are_stored(*graph),
             !graph.specs.multi_edges,
